@@ -281,6 +281,55 @@ func (fr *Frame) rootOf(v ssa.Value) ssa.Value {
 	}
 }
 
+// freeVarMayBeWritten: can running the closure fn change the captured variable
+// fv itself? Only loads of the variable (and of its fields/elements) are
+// harmless; a store through it, passing its address on, or capturing it in a
+// nested closure that may write it count as writes.
+func freeVarMayBeWritten(fn *ssa.Function, fv *ssa.FreeVar, depth int) bool {
+	if fn.Blocks == nil || depth > 4 {
+		return true
+	}
+	var addrWritten func(v ssa.Value, d int) bool
+	addrWritten = func(v ssa.Value, d int) bool {
+		if d > 8 || v.Referrers() == nil {
+			return true
+		}
+		for _, r := range *v.Referrers() {
+			switch u := r.(type) {
+			case *ssa.UnOp:
+				if u.Op != token.MUL {
+					return true
+				}
+			case *ssa.DebugRef:
+			case *ssa.FieldAddr:
+				if addrWritten(u, d+1) {
+					return true
+				}
+			case *ssa.IndexAddr:
+				// &v[i] of an array variable
+				if u.X == v && addrWritten(u, d+1) {
+					return true
+				}
+			case *ssa.Store:
+				return true
+			case *ssa.MakeClosure:
+				nf, _ := u.Fn.(*ssa.Function)
+				for bi, b := range u.Bindings {
+					if b == v {
+						if nf == nil || bi >= len(nf.FreeVars) || freeVarMayBeWritten(nf, nf.FreeVars[bi], depth+1) {
+							return true
+						}
+					}
+				}
+			default:
+				return true
+			}
+		}
+		return false
+	}
+	return addrWritten(fv, 0)
+}
+
 // heapPatOfAddr gives the heap pattern written by a store through addr.
 func heapPatOfAddr(addr ssa.Value) string {
 	switch t := addr.(type) {
@@ -343,6 +392,17 @@ func (fr *Frame) loopModifies(li *loopInfo) *loopMods {
 		blocks = append(blocks, b)
 	}
 	sort.Slice(blocks, func(i, j int) bool { return blocks[i].Index < blocks[j].Index })
+	// ghost variables updated by a gate (`reach ... then ghost.x = e`) may be
+	// updated inside any loop of the function
+	if fr.contract != nil {
+		for _, rc := range fr.contract.Reach {
+			if rc.SetName != "" {
+				if c := x.ghostCell(rc.SetName); c != nil {
+					m.cells[c] = true
+				}
+			}
+		}
+	}
 	for _, b := range blocks {
 		for _, ins := range b.Instrs {
 			switch t := ins.(type) {
@@ -364,7 +424,11 @@ func (fr *Frame) loopModifies(li *loopInfo) *loopMods {
 			case *ssa.Alloc, *ssa.MakeSlice, *ssa.MakeMap, *ssa.MakeChan, *ssa.MakeInterface, *ssa.Convert:
 				m.alloc = true
 			case *ssa.MakeClosure:
-				for _, bnd := range t.Bindings {
+				cf, _ := t.Fn.(*ssa.Function)
+				for bi, bnd := range t.Bindings {
+					if cf != nil && bi < len(cf.FreeVars) && !freeVarMayBeWritten(cf, cf.FreeVars[bi], 0) {
+						continue
+					}
 					markArg(bnd)
 				}
 			case *ssa.Go, *ssa.Send, *ssa.Select, *ssa.Defer:
